@@ -46,10 +46,57 @@ func branches(fn *ssa.Function) []Branch {
 			switch bo.Op {
 			case token.EQL, token.NEQ, token.LSS, token.LEQ, token.GTR, token.GEQ:
 				out = append(out, Branch{Block: b, Cond: Cond{bo.Op, bo.X, bo.Y}, True: t, False: f})
+				out = append(out, minBranches(b, bo, t, f)...)
 				continue
 			}
 		}
 		out = append(out, Branch{Block: b, Cond: Cond{token.ILLEGAL, c, nil}, True: t, False: f})
+	}
+	return out
+}
+
+// noSide stands for the side of a derived comparison about which nothing is
+// known: no edge leads to it, it dominates nothing.
+var noSide = &ssa.BasicBlock{Comment: "no-side"}
+
+// minOperands: v is util.Min(a, b) or the builtin min(a, b).
+func minOperands(v ssa.Value) (ssa.Value, ssa.Value, bool) {
+	cl, ok := stripConv(v).(*ssa.Call)
+	if !ok || len(cl.Call.Args) != 2 {
+		return nil, nil, false
+	}
+	if bi, isB := cl.Call.Value.(*ssa.Builtin); isB {
+		if bi.Name() == "min" {
+			return cl.Call.Args[0], cl.Call.Args[1], true
+		}
+		return nil, nil, false
+	}
+	if g := cl.Call.StaticCallee(); g != nil && g.Name() == "Min" && g.Pkg != nil && g.Pkg.Pkg.Name() == "util" {
+		return cl.Call.Args[0], cl.Call.Args[1], true
+	}
+	return nil, nil, false
+}
+
+// minBranches: "x > min(a, b)" refuses what "x > a || x > b" refuses: on the
+// side where the comparison with the minimum says "not above", x is not above
+// either operand.  The derived comparisons have one known side only.
+func minBranches(b *ssa.BasicBlock, bo *ssa.BinOp, t, f *ssa.BasicBlock) []Branch {
+	op, x, y := bo.Op, bo.X, bo.Y
+	if _, _, isMin := minOperands(x); isMin {
+		op, x, y = flipOp(op), y, x
+	}
+	m1, m2, isMin := minOperands(y)
+	if !isMin {
+		return nil
+	}
+	var out []Branch
+	for _, m := range []ssa.Value{m1, m2} {
+		switch op {
+		case token.GTR, token.GEQ: // false side: x <= m (x < m) for both operands
+			out = append(out, Branch{Block: b, Cond: Cond{op, x, m}, True: noSide, False: f})
+		case token.LEQ, token.LSS: // true side: x <= m (x < m) for both operands
+			out = append(out, Branch{Block: b, Cond: Cond{op, x, m}, True: t, False: noSide})
+		}
 	}
 	return out
 }
